@@ -175,10 +175,10 @@ func timed(name string, t0 time.Time, watchdog time.Time, f func() error) callOb
 	return o
 }
 
-// oncePost: handshake + ping/pong, then the server sends ps.Seq and stops reading; the client's
-// outgoing direction becomes ps.Transport, a deadline is set, and the client calls Read (until an
-// error), Write, Close.
-func (e *runEnv) oncePost(cs flightCase, ps postSpec) (po postObs) {
+// oncePost: handshake + ping/pong, then the hostile side (side "s": the server, C33; side "c": the client, C34)
+// sends ps.Seq and stops reading; the other side's outgoing direction becomes ps.Transport, a deadline is
+// set, and the application there calls Read (until an error), Write, Close.
+func (e *runEnv) oncePost(cs flightCase, ps postSpec, side string) (po postObs) {
 	po.Sent, po.SentErr, po.Calls = []string{}, []string{}, []callObs2{}
 	po.Deadline = int(e.deadline / time.Millisecond)
 	id, err := hlib.LookupID(cs.Parrot)
@@ -245,23 +245,37 @@ func (e *runEnv) oncePost(cs flightCase, ps postSpec) (po postObs) {
 		return
 	}
 	po.Ready = true
-	// the hostile server speaks, then never reads again
-	ws.SetDeadline(time.Now().Add(5 * time.Second))
+	// who speaks (the hostile side) and who is judged (the application on the other side)
+	type end struct {
+		conn  *tls.Conn
+		read  func([]byte) (int, error)
+		write func([]byte) (int, error)
+		close func() error
+		wire  *wconn
+	}
+	cEnd := end{uc.Conn, uc.Read, uc.Write, uc.Close, wc}
+	sEnd := end{srv, srv.Read, srv.Write, srv.Close, ws}
+	speaker, listener := sEnd, cEnd
+	if side == "c" {
+		speaker, listener = cEnd, sEnd
+	}
+	// the hostile side speaks, then never reads again
+	speaker.wire.SetDeadline(time.Now().Add(5 * time.Second))
 	for _, el := range ps.Seq {
 		var so sideObs
 		guard(&so, func() (string, error) {
 			switch el {
 			case "key_update_requested":
-				return el, tls.VerifFlightSendKeyUpdate(srv, true)
+				return el, tls.VerifFlightSendKeyUpdate(speaker.conn, true)
 			case "key_update_not_requested":
-				return el, tls.VerifFlightSendKeyUpdate(srv, false)
+				return el, tls.VerifFlightSendKeyUpdate(speaker.conn, false)
 			case "new_session_ticket":
 				mu.Lock()
 				nstNext = savedNST != nil
 				mu.Unlock()
-				return el, tls.VerifFlightSendKeyUpdate(srv, false)
+				return el, tls.VerifFlightSendKeyUpdate(speaker.conn, false)
 			case "application_data":
-				_, err := srv.Write([]byte("data"))
+				_, err := speaker.write([]byte("data"))
 				return el, err
 			case "bad_mac_record":
 				bad := make([]byte, 5+32)
@@ -269,31 +283,38 @@ func (e *runEnv) oncePost(cs flightCase, ps postSpec) (po postObs) {
 				for i := 5; i < len(bad); i++ {
 					bad[i] = byte(i * 7)
 				}
-				_, err := ws.BufConn.Write(bad)
+				_, err := speaker.wire.BufConn.Write(bad)
+				return el, err
+			case "raw_garbage":
+				junk := make([]byte, 24)
+				for i := range junk {
+					junk[i] = byte(0xff - i*3)
+				}
+				_, err := speaker.wire.BufConn.Write(junk)
 				return el, err
 			case "close":
-				return el, srv.Close()
+				return el, speaker.close()
 			}
 			return el, errors.New("unknown element")
 		})
 		po.Sent = append(po.Sent, el)
 		po.SentErr = append(po.SentErr, so.Err+so.Panic)
 	}
-	// the client's outgoing direction changes, the deadline is set, the application uses the connection
-	wc.setMode(ps.Transport)
+	// the judged side's outgoing direction changes, the deadline is set, the application uses the connection
+	listener.wire.setMode(ps.Transport)
 	t0 := time.Now()
-	wc.SetDeadline(t0.Add(e.deadline))
+	listener.wire.SetDeadline(t0.Add(e.deadline))
 	watchdog := t0.Add(e.deadline + 2500*time.Millisecond)
 	buf := make([]byte, 64)
 	for i := 0; i < 8; i++ {
-		o := timed("Read", t0, watchdog, func() error { _, err := uc.Read(buf); return err })
+		o := timed("Read", t0, watchdog, func() error { _, err := listener.read(buf); return err })
 		po.Calls = append(po.Calls, o)
 		if o.Outcome != "ok" {
 			break
 		}
 	}
-	po.Calls = append(po.Calls, timed("Write", t0, watchdog, func() error { _, err := uc.Write(ping); return err }))
-	po.Calls = append(po.Calls, timed("Close", t0, watchdog, func() error { return uc.Close() }))
+	po.Calls = append(po.Calls, timed("Write", t0, watchdog, func() error { _, err := listener.write(ping); return err }))
+	po.Calls = append(po.Calls, timed("Close", t0, watchdog, func() error { return listener.close() }))
 	wc.Close()
 	ws.Close()
 	return
